@@ -808,6 +808,10 @@ func main() {
 	winReps := fs.Int("windows", 6, "")
 	burstReps := fs.Int("burst", 3, "")
 	nPreload := fs.Int("preload", 60, "")
+	raceReps := fs.Int("race", 2, "")
+	raceOps := fs.Int("raceops", 400, "")
+	racePar := fs.Int("racepar", 3, "")
+	only := fs.String("only", "", "run only this family (race)")
 	par := fs.Int("par", 32, "")
 	seed := fs.Uint64("seed", 1, "")
 	out := fs.String("out", "cases.v", "")
@@ -821,9 +825,15 @@ func main() {
 		Footer: "Definition M := Eval vm_compute in mismatches cases.\nPrint M.\n",
 	}
 	win := time.Duration(*winMs) * time.Millisecond
+	if *only == "race" { // the race-detector build runs this family alone
+		*nScripts, *nHists, *hookTrials, *winReps, *burstReps, *nPreload = 0, 0, 0, 0, 0, 0
+	}
 
 	// scripts: generated first (sequential rng), run in parallel, emitted in order
 	scripts := directedScripts()
+	if *nScripts == 0 {
+		scripts = nil
+	}
 	for len(scripts) < *nScripts {
 		scripts = append(scripts, genScript(r.Fork(), *maxLen))
 	}
@@ -903,6 +913,10 @@ func main() {
 	// preload: extreme instants / representations queued together with ordinary elements before polling starts
 	if *nPreload > 0 {
 		runPreloads(cf, st, r.Fork(), *nPreload, *par)
+	}
+	// race: free-running ExecuteAt / ExecuteAfter / Cancel on the same identifiers from several goroutines
+	if *raceReps > 0 {
+		runRaces(st, r.Fork(), *raceReps, *raceOps, *racePar)
 	}
 	if err := cf.Write(*out); err != nil {
 		vx.Die("%v", err)
